@@ -36,7 +36,54 @@ def need(c, msg):
         raise Violation(msg)
 
 
+def check_unaligned(case):
+    """warps whose length is not a whole number of ticks (three-decimal lengths as simfiles carry them, down to a
+    hundredth of a beat).  Whether the one tick that the exact end and the tick-rounded end disagree about is hittable
+    is not claimed; every other tick is the same under both readings: start (included) up to the last whole tick
+    before the end is unhittable when at least one whole tick fits, everything from the first whole tick at or after
+    the end is hittable again, and so is everything before the start."""
+    from decimal import Decimal as D
+    from math import ceil, floor
+
+    from simfile.ssc import SSCSimfile
+    from simfile.sm import SMSimfile
+    from simfile.timing import TimingData
+    from simfile.timing.engine import TimingEngine
+
+    warps = [(k, D(v)) for k, v in case["warps"]]
+    wtext = ",".join(f"{k / 48:.3f}={v}" for k, v in case["warps"])
+    body = f"#OFFSET:0;\n#BPMS:0.000={case['bpm']};\n#STOPS:{case['stops']};\n#DELAYS:;\n#WARPS:{wtext};\n"
+    sim = SMSimfile(string=body) if case.get("sm") else SSCSimfile(string="#VERSION:0.83;\n" + body)
+    eng = TimingEngine(TimingData(sim))
+    ctx = f"; BPMS 0.000={case['bpm']}, STOPS {case['stops']!r}, WARPS {wtext!r}"
+    stop_ticks = {round(F(D(x.split("=")[0])) * 48) for x in case["stops"].split(",") if x}
+    sure_in, unclaimed = set(), set()
+    for k, v in warps:
+        exact = F(v) * 48
+        lo, hi = floor(exact), ceil(exact)
+        sure_in.update(range(k, k + lo))
+        if lo != hi:
+            unclaimed.add(k + lo)
+    last = max(k + ceil(F(v) * 48) for k, v in warps)
+    evals = 0
+    for t in range(-4, last + 60):
+        if t in unclaimed:
+            continue
+        exp = not (t in sure_in and t not in stop_ticks)
+        got = eng.hittable(frac_beat(F(t, 48)))
+        evals += 1
+        need(got == exp, f"hittable({F(t, 48)}) = {got}, expected {exp} (warp lengths that are not whole ticks){ctx}")
+    labels = ["unaligned-warp-length"]
+    if any(F(v) * 48 < F(1, 2) for _k, v in warps):
+        labels.append("warp-shorter-than-half-a-tick")
+    if any(F(v) * 48 < 1 for _k, v in warps):
+        labels.append("warp-shorter-than-a-tick")
+    return Verdict(nontrivial=True, labels=labels, evals=evals)
+
+
 def check(case):
+    if case.get("kind") == "unaligned":
+        return check_unaligned(case)
     from simfile.notes import Note, NoteData, NoteType
     from simfile.notes.timed import TimedNote, UnhittableNotes, time_notes
     from simfile.ssc import SSCSimfile
@@ -253,6 +300,32 @@ def s_offtick(draw):
     return {"tl": tl, "cols": cols, "nplayers": nplayers, "notes": None, "grid": {"cols": cols, "players": players, "deco": None}}
 
 
+@st.composite
+def s_unaligned(draw):
+    n = draw(st.sampled_from([1, 1, 2, 3]))
+    warps = []
+    k = draw(st.integers(0, 96))
+    for _ in range(n):
+        mode = draw(st.integers(0, 3))
+        if mode == 0:
+            thousandths = draw(st.integers(1, 20))  # shorter than a tick (1/48 = 0.0208)
+        elif mode == 1:
+            thousandths = draw(st.integers(1, 400))
+        else:
+            thousandths = draw(st.integers(1, 4000))
+        ticks = F(thousandths, 1000) * 48
+        # keep clear of exact half ticks (ties of the rounding are not claimed) - with three decimals: x.5 ticks
+        if (ticks * 2).denominator == 1 and ticks.denominator != 1:
+            thousandths += 1
+        warps.append([k, f"{thousandths // 1000}.{thousandths % 1000:03d}"])
+        k += int(F(thousandths, 1000) * 48) + draw(st.integers(3, 60))  # next warp well clear of this one's end
+    stops = ""
+    if draw(st.booleans()):
+        sk = draw(st.sampled_from([w[0] for w in warps] + [warps[0][0] + 1, warps[-1][0] + 2]))
+        stops = f"{sk / 48:.3f}=0.250"
+    return {"kind": "unaligned", "warps": warps, "stops": stops, "bpm": draw(st.sampled_from(["120", "60", "173.2", "240"])), "sm": draw(st.integers(0, 3)) == 0}
+
+
 def _place_iter(max_events):
     def it(shard, nshards):
         for i, tl in enumerate(G.placements_iter(max_events, shard, nshards)):
@@ -281,4 +354,5 @@ def parts(tier):
         {"name": "placements", "kind": "enum", "iter": _place_iter(3 if q else 4), "exhaustive": True},
         {"name": "random", "kind": "hypothesis", "strategy": s_case, "examples": 1500 if q else 16 * 8000},
         {"name": "off-tick-notes", "kind": "hypothesis", "strategy": s_offtick, "examples": 600 if q else 16 * 3000},
+        {"name": "unaligned-warp-lengths", "kind": "hypothesis", "strategy": s_unaligned, "examples": 600 if q else 16 * 3000},
     ]
